@@ -35,6 +35,9 @@ func runC02(c *Ctx) {
 		c.shared("R9", "C07/R1", "`next` abandons the remaining rules and `exit` ends the run wherever they are written: every loop consumes break and continue only and passes every other outcome of its body (the next and exit signals included) on unchanged", keyHas("loop-bod"), func(s *Ctx) { c07LoopConsumption(s, es) })
 	}
 	c.shared("R11", "C07/R8", "`next` and `exit` raised inside a function end the element / the run wherever the call is written — in a print argument, a call argument or an array literal: no evaluator function rebuilds an error it was handed (a control-flow signal wrapped into a positioned runtime error is no longer recognised by the rule drivers)", keyHas("error-rebuilt"), func(s *Ctx) { sentinelIdentity(s, "R8") })
+	if es := c.P.LangFunc("(*Evaluator).evalStatement"); es != nil {
+		c.shared("R12", "C07/R3", "next and exit reached through an else branch end the element / the run like anywhere else: the outcome of the branch an if statement ran is the statement's outcome", keyHas("else-outcome", "then-outcome"), func(s *Ctx) { c07IfElse(s, es) })
+	}
 	c.shared("R6", "C08/R1", "rules keep running for every element: a `next` (or any other way out of a function body) leaves no frame behind, otherwise a long input ends in a spurious `call depth limit exceeded` and the remaining elements and END rules are never reached", keyHas("balance "), func(s *Ctx) { c08R1(s, discoverFrameModel(s.P)) })
 	c.shared("R5", "C14/R2", "the -r selectors reach the interpreter complete and in the order given: multiFlag.Set appends, Run passes the accumulated slice", keyHas("selector"), c14R2)
 	c.shared("R8", "C04/R15", "`$` is bound to each element in turn: every element of an input array has a cell of its own (assigning to `$` for one element does not show up in another)", keyHas("value-construction"), func(s *Ctx) { newValueTable(s, "R15") })
